@@ -20,7 +20,12 @@ def renderEntry (e : Entry) : String :=
 def liveObserved (d : String) (t : Int) : String :=
   match d.splitOn "@" with
   | [v, dl] =>
-    if v == "~" then d      -- a deadline left behind without a value: reported as is
+    if v == "~" then
+      -- a deadline left behind without a value is reported as is, unless it has passed already: then the dump caught the expiry
+      -- (timer goroutine or CheckTTL) between its two deletions and the live view is simply "missing"
+      match dl.toInt? with
+      | some x => if x ≤ t then "~" else d
+      | none => d
     else match dl.toInt? with
       | some x => if x ≤ t then "~" else normZ v ++ "@" ++ dl
       | none => normZ v ++ "@" ++ dl
